@@ -7,7 +7,7 @@ from seqprop import audit, coverage, corpus
 
 LEVEL = "proof"
 COQ_TARGETS = ("props/C01.vo",)
-THEOREMS = ['C01_step_refines', 'C01_refines_reference_map', 'C01_reads_refine', 'C01_interpreter_steps_are_model_steps',
+THEOREMS = ['C01_step_refines', 'C01_refines_reference_map', 'C01_reads_refine', 'C01_reads_refine_all', 'C01_program_get_line', 'C01_interpreter_steps_are_model_steps',
             'C01_interpreter_states_reachable', 'C01_get_observation', 'C01_scan_observation', 'C01_maintenance_invisible', 'C01_scan_is_the_sorted_map',
             'C01_invariant_reachable', 'C01_gc_stream_keeps_values', 'C01_refines_example',
             'C01_write_point_read_partial', 'C01_gc_keeps_newest_partial', 'C01_point_read_agrees_with_scan_partial',
